@@ -23,14 +23,18 @@ func init() {
 		Rule{ID: "R08c", Doc: "negative entries never displace", Floor: 5, Run: r08c},
 		Rule{ID: "R08d", Doc: "ageing on every hit", Floor: 6, Run: r08d},
 		Rule{ID: "R08e", Doc: "expiry plumbing", Floor: 5, Run: r08e},
+		Rule{ID: "R02d", Doc: "the TC and other header bits are decoded from their RFC 1035 positions (the never-cache-truncated test reads the decoded bit; shared with C02)", Floor: 10, AllVariants: true, Run: r02d},
 	)
 }
 
 // condTrue / condFalse: a dominating branch condition whose Expr contains sub evaluated to val.
 func hasCond(b *ssa.BasicBlock, sub string, val bool) bool {
 	for _, cnd := range core.CondsAt(b) {
-		if cnd.Val == val && strings.Contains(core.Expr(cnd.Cond), sub) {
-			return true
+		// any equivalent spelling of the condition counts: (a > b)=true is (b < a)=true is (a <= b)=false …
+		for _, f := range core.CondForms(cnd.Cond, cnd.Val) {
+			if f.Val == val && strings.Contains(f.Text, sub) {
+				return true
+			}
 		}
 	}
 	return false
@@ -266,7 +270,9 @@ func r08c(c *core.Ctx) {
 		if name == core.FnFullName(ms) || name == core.FnFullName(as) {
 			args := call.Common().Args
 			e := core.Expr(args[len(args)-1])
-			c.Check(e == "(resp.Header.RCode != 0)", "negative-flag:"+shortCallee(call), call.Pos(), store, "the set-if-absent flag passed to the backend is `resp.RCode != RCodeSuccess`", e)
+			cm, isCmp := core.CmpOf(args[len(args)-1])
+			okFlag := isCmp && cm.Op == "==" && cm.Neg && ((cm.X == "0" && cm.Y == "resp.Header.RCode") || (cm.Y == "0" && cm.X == "resp.Header.RCode"))
+			c.Check(okFlag, "negative-flag:"+shortCallee(call), call.Pos(), store, "the set-if-absent flag passed to the backend is `resp.RCode != RCodeSuccess`", e)
 		}
 	}
 	// redis -> memory back-fill passes true
@@ -400,9 +406,18 @@ func r08d(c *core.Ctx) {
 	minOK := false
 	core.EachInstr(gmt, func(b *ssa.BasicBlock, _ int, in ssa.Instruction) {
 		if iff, ok := in.(*ssa.If); ok {
-			e := core.Expr(iff.Cond)
-			if strings.Contains(e, ".TTL < phi") || strings.Contains(e, "TTL < ") {
+			// hdr.TTL < running minimum, in any spelling (the true edge stores the TTL)
+			if cm, isCmp := core.CmpOf(iff.Cond); isCmp && cm.Op == "<" && !cm.Neg && strings.Contains(cm.X, ".TTL") {
 				minOK = true
+			}
+		}
+		if call, ok := in.(*ssa.Call); ok {
+			if bi, isB := call.Call.Value.(*ssa.Builtin); isB && bi.Name() == "min" {
+				for _, a := range call.Call.Args {
+					if strings.Contains(core.Expr(a), ".TTL") {
+						minOK = true
+					}
+				}
 			}
 		}
 	})
